@@ -71,6 +71,36 @@ Proof.
     intros Hk. pose proof (Hbody (mu s0) fuel s0 s1 k1 (conj I0 (conj G0 eq_refl)) E1) as Hp. destruct Hk as [-> | ->]; exact Hp.
   - rewrite E. destruct w; [destruct (Hw eq_refl) as [_ Hle]; lia|]. eexists; reflexivity.
 Qed.
+
+(* the same with a body that is only known to answer from states satisfying the invariant (nested loops) *)
+Definition total (fuel : positive) (P : St -> Prop) (c : cmd St) : Prop := forall s, P s -> exists r, exec crashed fuel c s = Some r.
+
+Lemma total_loopfree fuel P c : loopfree c -> total fuel P c.
+Proof. intros H s _. apply loopfree_total. exact H. Qed.
+Lemma total_pre fuel (P P' : St -> Prop) c : (forall s, P' s -> P s) -> total fuel P c -> total fuel P' c.
+Proof. intros H Ht s Hs. apply Ht, H, Hs. Qed.
+Lemma total_seq fuel (P M : St -> Prop) a b (Qb Qc : St -> Prop) :
+  total fuel P a -> triple St crashed P a M Qb Qc -> total fuel M b -> total fuel P (Seq a b).
+Proof.
+  intros Ha Hta Hb s Hs. cbn [exec]. destruct (Ha s Hs) as [[s1 k1] E1]. rewrite E1.
+  destruct k1; try (eexists; reflexivity). apply Hb. exact (Hta fuel s s1 Next Hs E1).
+Qed.
+Lemma total_ite fuel (P : St -> Prop) g a b :
+  total fuel (fun s => P s /\ g s = true) a -> total fuel (fun s => P s /\ g s = false) b -> total fuel P (Ite g a b).
+Proof. intros Ha Hb s Hs. cbn [exec]. destruct (g s) eqn:G; [apply Ha|apply Hb]; auto. Qed.
+
+Lemma while_total' (I : St -> Prop) (mu : St -> nat) g body fuel :
+  total fuel (fun s => I s /\ g s = true) body ->
+  (forall n, triple St crashed (fun s => I s /\ g s = true /\ mu s = n) body
+                    (fun s' => I s' /\ (mu s' < n)%nat) (fun _ => True) (fun s' => I s' /\ (mu s' < n)%nat)) ->
+  total fuel (fun s => I s /\ (mu s < Pos.to_nat fuel)%nat) (While g body).
+Proof.
+  intros Htot Hbody s [Hs Hmu]. cbn [exec].
+  destruct (loop_progress I mu (exec crashed fuel body) g) with (p := fuel) (s := s) as (s' & w & k & E & Hw); [|exact Hs|].
+  - intros s0 I0 G0. destruct (Htot s0 (conj I0 G0)) as [[s1 k1] E1]. exists s1, k1. split; [exact E1|].
+    intros Hk. pose proof (Hbody (mu s0) fuel s0 s1 k1 (conj I0 (conj G0 eq_refl)) E1) as Hp. destruct Hk as [-> | ->]; exact Hp.
+  - rewrite E. destruct w; [destruct (Hw eq_refl) as [_ Hle]; lia|]. eexists; reflexivity.
+Qed.
 End Term.
 
 (* ================= Part B: the Gregory rules ================= *)
